@@ -212,15 +212,13 @@ func silent(r Route) string {
 				if prim, slice := primitiveLike(t); prim && !slice {
 					return "primitive body (the rules do not restrict body types)"
 				}
+				if t == "error" {
+					return "body of the built-in error type (the rules do not restrict body types)"
+				}
 			}
 		}
 		if t := typeOf(r, a.Ref); isCtx(t) {
 			return "annotation bound to the context parameter"
-		}
-	}
-	for _, p := range r.Params {
-		if p.Type == "error" || strings.HasPrefix(p.Type, "map[") {
-			return "parameter of type error/map"
 		}
 	}
 	if len(r.Rets) == 2 && (r.Rets[0] == "error" || r.Rets[0] == "CErr§") {
@@ -394,7 +392,7 @@ func perturbations(b Route) []pert {
 			r.Params[j].Name = "renamed"
 			return true
 		}})
-		for _, t := range []string{"string", "Body§", "[]string", "*string", "E§", "TS§", "[]Body§", "context.Context"} {
+		for _, t := range []string{"string", "Body§", "[]string", "*string", "E§", "TS§", "[]Body§", "context.Context", "map[string]int", "error", "*Body§"} {
 			t := t
 			ps = append(ps, pert{tag + ".retype->" + t, func(r *Route) bool {
 				if j >= len(r.Params) || r.Params[j].Type == t {
@@ -783,7 +781,11 @@ func Main(tier, replay string) {
 					feat["rule"] = ci.Bad[0]
 					run.Report(core.Violation{Oracle: "ill-linked-route-must-be-rejected", Features: feat, What: fmt.Sprintf("the route violates %v but the command exited 0 and wrote its artifacts", ci.Bad), Case: c})
 				}
-				if len(ci.Bad) == 0 && r.Exit != 0 {
+				if len(ci.Bad) == 0 && r.Exit != 0 && strings.Contains(r.Output, "is not valid Go and was not written") {
+					// accepted by validation, refused at generation time because gleece cannot emit compilable code for it
+					// (a map-typed body): that is C09's "rejected with an error rather than producing a file", not a link verdict
+					run.Outcome("cli: well-linked route refused at generation time (not a link verdict)", 1)
+				} else if len(ci.Bad) == 0 && r.Exit != 0 {
 					feat["real"] = "cli-exit"
 					run.Report(core.Violation{Oracle: "well-linked-route-must-be-accepted", Features: feat, What: "the route satisfies every link rule but the command failed: " + lastLines(r.Output, 3), Case: c})
 				}
